@@ -118,28 +118,29 @@ package mount
 //@ spec rW4(fs *FS, o string, n string) := worldAfterW("io.Copy", rW3(fs, o, n), rDst(fs, o, n), rSrc(fs, o))
 
 //@ func (fs *FS) Rename(oldname string, newname string) (err error)
-//@   props C06 C05
+//@   props C06 C05 C04
 //@   modifies world()
 //@   requires fs != nil
 //@   opaque mountPoint keep nonnil
-//@   ensures "stat-error" implies(old(rStatErr(fs, oldname)) != nil, isLinkError(err) && oldOf(err) == oldname && newOf(err) == newname &&
+//@   ensures "gate" [C04 C05] implies(!VP(oldname) || !VP(newname), isLinkError(err) && oldOf(err) == oldname && newOf(err) == newname && errIs(err, hackpadfs.ErrInvalid) && world() == old(world()))
+//@   ensures "stat-error" implies(VP(oldname) && VP(newname) && old(rStatErr(fs, oldname)) != nil, isLinkError(err) && oldOf(err) == oldname && newOf(err) == newname &&
 //@                      innerErr(err) == old(rStatErr(fs, oldname)) && world() == old(rW1(fs, oldname)))
-//@   ensures "same-name-file" implies(old(rStatErr(fs, oldname)) == nil && oldname == newname && !old(rIsDir(fs, oldname)), err == nil && world() == old(rW1(fs, oldname)))
-//@   ensures "same-name-dir" implies(old(rStatErr(fs, oldname)) == nil && oldname == newname && old(rIsDir(fs, oldname)),
+//@   ensures "same-name-file" implies(VP(oldname) && VP(newname) && old(rStatErr(fs, oldname)) == nil && oldname == newname && !old(rIsDir(fs, oldname)), err == nil && world() == old(rW1(fs, oldname)))
+//@   ensures "same-name-dir" implies(VP(oldname) && VP(newname) && old(rStatErr(fs, oldname)) == nil && oldname == newname && old(rIsDir(fs, oldname)),
 //@                      isLinkError(err) && oldOf(err) == oldname && newOf(err) == newname && errIs(err, hackpadfs.ErrExist) && world() == old(rW1(fs, oldname)))
-//@   ensures "same-mount" implies(old(rStatErr(fs, oldname)) == nil && oldname != newname && old(rOP(fs, oldname)) == old(rOP(fs, newname)),
+//@   ensures "same-mount" implies(VP(oldname) && VP(newname) && old(rStatErr(fs, oldname)) == nil && oldname != newname && old(rOP(fs, oldname)) == old(rOP(fs, newname)),
 //@                      err == old(retW("hackpadfs.Rename", 0, rW1(fs, oldname), rOM(fs, oldname), rOS(fs, oldname), rOS(fs, newname))) &&
 //@                      world() == old(worldAfterW("hackpadfs.Rename", rW1(fs, oldname), rOM(fs, oldname), rOS(fs, oldname), rOS(fs, newname))))
-//@   ensures "cross-dir" implies(old(rStatErr(fs, oldname)) == nil && oldname != newname && old(rOP(fs, oldname)) != old(rOP(fs, newname)) && old(rIsDir(fs, oldname)),
+//@   ensures "cross-dir" implies(VP(oldname) && VP(newname) && old(rStatErr(fs, oldname)) == nil && oldname != newname && old(rOP(fs, oldname)) != old(rOP(fs, newname)) && old(rIsDir(fs, oldname)),
 //@                      isLinkError(err) && oldOf(err) == oldname && newOf(err) == newname && errIs(err, hackpadfs.ErrNotImplemented) && world() == old(rW1(fs, oldname)))
-//@   ensures "cross-open-error" implies(old(rStatErr(fs, oldname)) == nil && oldname != newname && old(rOP(fs, oldname)) != old(rOP(fs, newname)) && !old(rIsDir(fs, oldname)) &&
+//@   ensures "cross-open-error" implies(VP(oldname) && VP(newname) && old(rStatErr(fs, oldname)) == nil && oldname != newname && old(rOP(fs, oldname)) != old(rOP(fs, newname)) && !old(rIsDir(fs, oldname)) &&
 //@                      old(rSrcErr(fs, oldname)) != nil, err == old(rSrcErr(fs, oldname)) && world() == old(rW2(fs, oldname)))
-//@   ensures "cross-create-error" implies(old(rStatErr(fs, oldname)) == nil && oldname != newname && old(rOP(fs, oldname)) != old(rOP(fs, newname)) && !old(rIsDir(fs, oldname)) &&
+//@   ensures "cross-create-error" implies(VP(oldname) && VP(newname) && old(rStatErr(fs, oldname)) == nil && oldname != newname && old(rOP(fs, oldname)) != old(rOP(fs, newname)) && !old(rIsDir(fs, oldname)) &&
 //@                      old(rSrcErr(fs, oldname)) == nil && old(rDstErr(fs, oldname, newname)) != nil, err == old(rDstErr(fs, oldname, newname)))
-//@   ensures "cross-copy-error" implies(old(rStatErr(fs, oldname)) == nil && oldname != newname && old(rOP(fs, oldname)) != old(rOP(fs, newname)) && !old(rIsDir(fs, oldname)) &&
+//@   ensures "cross-copy-error" implies(VP(oldname) && VP(newname) && old(rStatErr(fs, oldname)) == nil && oldname != newname && old(rOP(fs, oldname)) != old(rOP(fs, newname)) && !old(rIsDir(fs, oldname)) &&
 //@                      old(rSrcErr(fs, oldname)) == nil && old(rDstErr(fs, oldname, newname)) == nil && implements(old(rDst(fs, oldname, newname)), io.Writer) &&
 //@                      old(rCopyErr(fs, oldname, newname)) != nil, err == old(rCopyErr(fs, oldname, newname)))
-//@   ensures "cross-file" implies(old(rStatErr(fs, oldname)) == nil && oldname != newname && old(rOP(fs, oldname)) != old(rOP(fs, newname)) && !old(rIsDir(fs, oldname)) &&
+//@   ensures "cross-file" implies(VP(oldname) && VP(newname) && old(rStatErr(fs, oldname)) == nil && oldname != newname && old(rOP(fs, oldname)) != old(rOP(fs, newname)) && !old(rIsDir(fs, oldname)) &&
 //@                      old(rSrcErr(fs, oldname)) == nil && old(rDstErr(fs, oldname, newname)) == nil && implements(old(rDst(fs, oldname, newname)), io.Writer) &&
 //@                      old(rCopyErr(fs, oldname, newname)) == nil,
 //@                      err == old(retW("hackpadfs.Remove", 0, rW4(fs, oldname, newname), rOM(fs, oldname), rOS(fs, oldname))))
